@@ -3,6 +3,7 @@ import PdfVerif.Model.Ccitt
 import PdfVerif.Model.CcittStream
 import PdfVerif.Spec.T6
 import PdfVerif.Lemmas.CcittSpecTables
+import PdfVerif.Model.CcittColumns
 
 open PdfVerif PdfVerif.Ccitt
 
@@ -128,6 +129,20 @@ def step (line : String) : String :=
     match n.toNat? with
     | some n => let c := extCode n; if c.isEmpty then "-" else serBits c
     | none => "bad-op"
+  | "cols" :: strict :: align :: rev :: hex :: toks =>
+    -- round 6d: invalid Columns, direct call and PDFStream.get_data (`columns_invalid_rejected`)
+    match bytesOfHex hex, parseObj toks with
+    | some data, some (v, []) =>
+      let d := match decodeInvalidColumns v (align == "1") (rev == "1") data with
+        | .ok bs => "ok:" ++ hexOrDash bs
+        | .error .unmodelled => "unmodelled"
+        | .error e => "EXC:" ++ e.pyName
+      let s := match streamInvalidColumns (strict == "1") v (align == "1") (rev == "1") data with
+        | .data bs => "ok:" ++ hexOrDash bs
+        | .pdfException n => "EXC:" ++ n
+        | .leak n => "LEAK:" ++ n
+      d ++ " " ++ s
+    | _, _ => "bad-op"
   | ["spectab"] =>
     -- the quantities of `spec_tables_T4`, evaluated on the frozen tables
     let keysOk := decide (Spec.T6.white.map (·.1) = runKeys) && decide (Spec.T6.black.map (·.1) = runKeys)
